@@ -5,7 +5,8 @@ from .. import core, lmm
 class C17(core.Prop):
     id = "C17"
     drivers = ["lmm_driver"]
-    sizes = {"quick": 3000, "thorough": 60000}
+    technique = "property-based differential testing: selective-update solve vs a fresh full solve of the same system after every step of generated histories"
+    sizes = {"quick": 15000, "thorough": 400000}
     rule = ("C15 histories with the maxmin solver and selective update ON, a solve after random subsets of modifications, plus counter-jump "
             "operations that put visited_counter_ at UINT_MAX-k (k<=4) so that the wrap-around code runs within the history. After every solve "
             "the driver builds a FRESH non-selective system from its own shadow of the history (current constraints, variables, elements, the "
